@@ -5,7 +5,12 @@
    C20) is about.  Not one of the 20 properties: it replaces the step "L2's
    files behave like the byte-level files", which used to rest on the L1 law
    plus trace testing, by theorems.  Only statements here; definitions in
-   Link/Abs.v, proofs in Link/AbsFacts1..4.v.
+   Link/Abs.v, proofs in Link/AbsFacts1..4.v.  Sections 1-4: one file.
+   Sections 5-6 (definitions Link/Disk.v, Link/Compose.v; proofs
+   Link/DiskFacts1..3.v, Link/ComposeFacts1..7.v): whole directories (every
+   byte-level action / crash outcome of a disk corresponds to L2's), restarts
+   and failed fsyncs, and the composition with the WAL operations and the crash
+   histories of crash_refinement by a lock-step run of the byte disk.
 
    Vocabulary (Link/Abs.v):
      enc l                 the bytes stored for record l (its BinaryCodec encoding)
@@ -24,7 +29,11 @@
    consecutive indexes: StoreLogs checks that before calling the segment). *)
 From RW Require Import Base.Bytes Base.BytesFacts Base.Crc32c Fmt.Codec Fmt.Frame
      Seg.Writer Seg.Recover Seg.Reader Seg.SegAbs Seg.WriterFacts Seg.RecoverFacts Seg.ChainFacts
-     Wal.Model Wal.Spec Link.Abs Link.AbsFacts1 Link.AbsFacts2 Link.AbsFacts3 Link.AbsFacts4
+     Wal.Model Wal.Spec Wal.Hist Wal.CrashInv Wal.CrashGlue
+     Link.Abs Link.AbsFacts1 Link.AbsFacts2 Link.AbsFacts3 Link.AbsFacts4
+     Link.Disk Link.DiskFacts1 Link.DiskFacts2 Link.DiskFacts3
+     Link.Compose Link.ComposeFacts1 Link.ComposeFacts2 Link.ComposeFacts3 Link.ComposeFacts4
+     Link.ComposeFacts5 Link.ComposeFacts6 Link.ComposeFacts7
      Run.RunSeg Run.RunSegFacts Gen.Constants.
 Open Scope N_scope.
 
@@ -474,3 +483,509 @@ Example Link_ex_consec_needed :
   fst (fst (seg_append (new_wseg lk_info) ls lk_env)) = Model.ROk /\
   fst (check_logs 0 ls) = RErrNonMono.
 Proof. vm_compute. repeat split; reflexivity. Qed.
+
+(* ================================================================== *)
+(* 5. THE DIRECTORY LEVEL (Link/Disk.v, DiskFacts1-3.v)                 *)
+(* Vocabulary:
+     bfile / bdisk        a segment file as bytes: content the process sees
+                          (bf_data), durable image as of the last fsync (bf_sync),
+                          pwrites issued since (bf_pend), directory entry durable
+     bact / bapply        byte-level create / pwrite (with the bytes) / fsync /
+                          unlink / none
+     bcrash               the byte-level crash adversary over a whole disk: every
+                          file independently; a non-durable directory entry is
+                          kept or dropped; every unsynced write is torn per 8-byte
+                          chunk over what was there (torn_over), no CRC collision
+     bscrub               RecoverTail (recoverTailState + zeroStaleTail) on the files
+     frep_at info bs pb   bf / f stand for: batches bs committed and durable, pb =
+                          Some b: b written behind them, not yet synced; the durable
+                          image is "image of bs, then zeros"; records are log_ok;
+                          image below 2^32
+     drep c bd d          same names in the same order; every file frep-related with
+                          info = finfo c name (header fields: base, id, codec);
+                          hdr_wf of it
+   The guards of the per-file theorems (encs_ok, files < 2^32, hdr_wf) are PART of
+   drep: established by Create and the guarded write, kept by everything else.
+   no_torn_collision is part of the adversary (as in Seg/RecoverFacts.v);
+   NoDup of the names follows from CrashInv.DIs (CrashFacts1.DIs_NoDup). *)
+
+(* (a) every byte-level action preserves drep w.r.t. the L2 action it stands for *)
+Theorem Link_disk_create :
+  forall c bd d n size, drep c bd d -> hdr_wf (finfo c n) ->
+    drep c (bapply bd (BCreate n size)) (apply_act d (ACreate n size)).
+Proof. exact bcreate_drep. Qed.
+Print Assumptions Link_disk_create.
+
+Theorem Link_disk_sync :
+  forall c bd d n, drep c bd d -> drep c (bapply bd (BSync n)) (apply_act d (ASync n)).
+Proof. exact bsync_drep. Qed.
+Print Assumptions Link_disk_sync.
+
+Theorem Link_disk_delete :
+  forall c bd d n, drep c bd d -> drep c (bapply bd (BDelete n)) (apply_act d (ADelete n)).
+Proof. exact bdelete_drep. Qed.
+Print Assumptions Link_disk_delete.
+
+(* metadata commit, stable store, database initialisation, failed attempt *)
+Theorem Link_disk_meta :
+  forall c bd d a, meta_act a -> drep c bd d -> drep c (bapply bd BNone) (apply_act d a).
+Proof. exact bnone_drep. Qed.
+Print Assumptions Link_disk_meta.
+
+(* the write: one successful operation of the byte-level writer of the file's
+   image commits b; the pwrite of exactly its bytes and L2's AWrite lead to
+   drep-related disks (b pending on both sides: the crash window), and so do
+   the fsyncs *)
+Theorem Link_disk_write :
+  forall c bd d info n bs bf f op w1' acts b ls,
+    let s := cstate info bs in
+    let new := batch_write info s b in
+    let off := len (image info bs) in
+    let aw := AWrite n off (len new) (pb_of ls w1') in
+    drep c bd d -> name_of info = n -> hdr_eq info (finfo c n) ->
+    lookup n (dk_files d) = Some f -> blookup n bd = Some bf -> frep_at info bs None bf f ->
+    wrun (wst info s) [op] = Some (w1', acts, [b]) -> fst b = map enc ls -> logs_ok ls ->
+    len (image info (bs ++ [b])) < two32 ->
+    acts = [WWrite off new; WSync] /\ w1' = wst info (cstate info (bs ++ [b])) /\
+    drep c (bapply bd (BWrite n off new)) (apply_act d aw) /\
+    drep c (bapply (bapply bd (BWrite n off new)) (BSync n)) (apply_act (apply_act d aw) (ASync n)) /\
+    frep_at info bs (Some b) (bwrite_file bf off new) (written f (pb_of ls w1')) /\
+    frep_at info (bs ++ [b]) None (bsync_file (bwrite_file bf off new)) (synced f (pb_of ls w1')).
+Proof. exact bwrite_drep. Qed.
+Print Assumptions Link_disk_write.
+
+(* the adversary's torn writes over zeros are RecoverFacts.torn *)
+Theorem Link_torn_over_zeros :
+  forall new T, (forall n, torn_over (zeros n) new T -> torn new T) /\
+                (torn new T -> torn_over (zeros (length new)) new T).
+Proof. exact torn_over_zeros_iff. Qed.
+Print Assumptions Link_torn_over_zeros.
+
+(* (b) DISK-LEVEL CRASH SOUNDNESS: whatever the byte-level adversary leaves of a
+   drep-related byte disk, there is an L2 crash choice cc such that after
+   RecoverTail the byte disk is drep-related to crash_disk cc d *)
+Theorem Link_disk_crash_sound :
+  forall c bd d bd',
+    drep c bd d -> NoDup (map fst (dk_files d)) -> bcrash bd bd' ->
+    exists cc, drep c (bscrub c bd') (crash_disk cc d).
+Proof. exact bcrash_sound. Qed.
+Print Assumptions Link_disk_crash_sound.
+
+(* ... and every L2 crash choice is the outcome of a byte-level crash *)
+Theorem Link_disk_crash_tight :
+  forall c bd d cc, drep c bd d -> exists bd', bcrash bd bd' /\ drep c (bscrub c bd') (crash_disk cc d).
+Proof. exact bcrash_tight. Qed.
+Print Assumptions Link_disk_crash_tight.
+
+(* per file, with everything recovery returns; before zeroStaleTail the file is
+   "image of the recovered batches, then leftovers" (readers need no more) *)
+Theorem Link_disk_crash_file :
+  forall info bs pb bf f s',
+    hdr_wf info -> frep_at info bs pb bf f -> torn_apply (bf_sync bf) (bf_pend bf) s' ->
+    exists keep : bool,
+      let bs' := if keep then bs ++ opt_batch pb else bs in
+      (pb = None -> s' = bf_sync bf /\ bf_data (bscrub_file info (bkept s')) = s') /\
+      frep_at info bs' None (bscrub_file info (bkept s')) (crashed keep f) /\
+      recover_state info s' = Some (wst info (cstate info bs')) /\
+      (exists junk, s' = image info bs' ++ junk) /\
+      rep_w (wst info (cstate info bs')) (recw info (crashed keep f)).
+Proof. exact bcrash_file_sound. Qed.
+Print Assumptions Link_disk_crash_file.
+
+(* restart without power loss: adopt_disk, mirrored (the bytes are treated as
+   settled, L2's modelling decision); recovery returns the represented writer and
+   zeroStaleTail writes nothing *)
+Theorem Link_disk_adopt : forall c bd d, drep c bd d -> drep c (badopt bd) (adopt_disk d).
+Proof. exact drep_adopt. Qed.
+Print Assumptions Link_disk_adopt.
+
+Theorem Link_restart_recover :
+  forall info bs pb bf f e,
+    hdr_wf info -> frep_at info bs pb bf f ->
+    lookup (name_of info) (dk_files (e_disk e)) = Some (adopt_file f) ->
+    let bs' := bs ++ opt_batch pb in
+    recover_state info (bf_data bf) = Some (wst info (cstate info bs')) /\
+    seg_recover info e = Some (Some (recw info (adopt_file f))) /\
+    rep_w (wst info (cstate info bs')) (recw info (adopt_file f)) /\
+    bf_data (bscrub_file info (bkept (bf_data bf))) = bf_data bf.
+Proof. exact restart_recover. Qed.
+Print Assumptions Link_restart_recover.
+
+(* the branch of apply_act that extends a pending batch: content and fsync agree
+   with the bytes of the two L1 batches *)
+Theorem Link_extend_pending :
+  forall info bs b1 b2 bf f p q,
+    let s1 := cstate info (bs ++ [b1]) in
+    let new2 := batch_write info s1 b2 in
+    let bf2 := bwrite_file bf (len (image info (bs ++ [b1]))) new2 in
+    let f2 := written f (merged p q) in
+    frep_at info bs (Some b1) bf f -> df_pend f = Some p ->
+    rep_b info (bs ++ [b1]) b2 q -> Forall log_ok (pb_ents q) ->
+    len (image info (bs ++ [b1; b2])) < two32 ->
+    cur_rep info (bs ++ [b1; b2]) f2 /\
+    (exists k, bf_data bf2 = image info (bs ++ [b1; b2]) ++ zeros k) /\
+    frep_at info (bs ++ [b1; b2]) None (bsync_file bf2) (crashed true f2).
+Proof. exact frep_extend. Qed.
+Print Assumptions Link_extend_pending.
+
+(* a failed fsync leaves frep_at _ bs (Some b1) (Link_disk_write, 4th conjunct)
+   and rolled-back writers (Link_append_sim_faults); the retry writes at the same
+   offset: L2 replaces the pending batch; the bytes are the new image followed by
+   what is left of the failed write; a retry at least as long re-establishes the
+   link *)
+Theorem Link_retry_after_failed_fsync :
+  forall info bs b1 b2 bf f p q,
+    let s := cstate info bs in
+    let off := len (image info bs) in
+    let new1 := batch_write info s b1 in
+    let new2 := batch_write info s b2 in
+    let bf2 := bwrite_file bf off new2 in
+    let f2 := written f q in
+    frep_at info bs (Some b1) bf f -> df_pend f = Some p ->
+    rep_b info bs b2 q -> Forall log_ok (pb_ents q) -> len (image info (bs ++ [b2])) < two32 ->
+    off <> pb_end p /\
+    rep_p info bs b2 f2 /\ rep info (bs ++ [b2]) (crashed true f2) /\
+    (exists k, bf_data bf2 = image info (bs ++ [b2]) ++ skipn (length new2) new1 ++ zeros k) /\
+    (len new1 <= len new2 ->
+     exists k, bf_data bf2 = image info (bs ++ [b2]) ++ zeros k /\
+               frep_at info (bs ++ [b2]) None (bsync_file bf2) (crashed true f2)).
+Proof. exact frep_retry. Qed.
+Print Assumptions Link_retry_after_failed_fsync.
+
+(* ================================================================== *)
+(* 6. COMPOSITION: the WAL over bytes (Link/Compose.v, ComposeFacts1-7.v) *)
+(* Vocabulary:
+     lrun c bd d acts bd' d'   the L2 actions acts, performed in lock step with
+                               matching byte-level actions (bmatch: each AWrite by a
+                               pwrite of the bytes a byte-level writer emits for that
+                               operation), lead from (bd, d) to (bd', d'); EVERY pair
+                               of disks on the way is drep-related
+     erun c bd e bd' e'        e' is e after more successful actions, an lrun
+     wlink c w bd d            drep; names unique; next id < 2^64; the tail writer of
+                               the running WAL is represented by a byte-level writer
+                               [wst info (cstate info bs)] and its file holds exactly
+                               the image of bs (tail_link)
+     op_link c bd e w' e'      exists bd', erun c bd e bd' e' /\ wlink c w' bd' (e_disk e')
+     small_tail                8 n <= off <= limit + 8 < 2^30 for an unsealed tail
+                               writer; follows from LInv (Link_LInv_small)
+     HL c h bd                 the invariant of histories (Wal/Hist.v) *)
+
+(* every point of a lock-step run is related: the crash points of a call *)
+Theorem Link_lrun_prefix :
+  forall c bd d acts bd' d' j, lrun c bd d acts bd' d' ->
+    exists bdj, lrun c bd d (firstn j acts) bdj (fold_left apply_act (firstn j acts) d) /\
+                drep c bdj (fold_left apply_act (firstn j acts) d).
+Proof. exact lrun_prefix_drep. Qed.
+Print Assumptions Link_lrun_prefix.
+
+(* per operation: if the state is linked before, the new actions are a lock-step
+   run and the state is linked after *)
+Theorem Link_store_logs :
+  forall c w ls bd e r w' e',
+    cfg_ok c -> wlink c w bd (e_disk e) -> e_fault e = None -> small_tail (st_tail w) ->
+    logs_ok ls -> frames_size ls < two30 ->
+    store_logs c w ls e = (r, w', e') -> op_link c bd e w' e'.
+Proof. exact store_logs_link. Qed.
+Print Assumptions Link_store_logs.
+
+Theorem Link_delete_range :
+  forall c w mn mx bd e r w' e',
+    cfg_ok c -> wlink c w bd (e_disk e) -> e_fault e = None -> small_tail (st_tail w) ->
+    delete_range c w mn mx e = (r, w', e') -> op_link c bd e w' e'.
+Proof. exact delete_range_link. Qed.
+Print Assumptions Link_delete_range.
+
+Theorem Link_rotate :
+  forall c w bd e w' e',
+    cfg_ok c -> wlink c w bd (e_disk e) -> e_fault e = None ->
+    rotate c w e = (w', e') ->
+    op_link c bd e w' e' /\
+    (st_tail w' = st_tail w \/ exists si, small_tw (new_wseg si) /\ st_tail w' = Some (new_wseg si)).
+Proof. exact rotate_link. Qed.
+Print Assumptions Link_rotate.
+
+(* Open on a disk without a write in flight (after bscrub, or a clean reopen) *)
+Theorem Link_open_wal :
+  forall c bd e res e',
+    cfg_ok c -> drep c bd (e_disk e) -> NoDup (map fst (dk_files (e_disk e))) -> e_fault e = None ->
+    no_pend (e_disk e) -> meta_small (e_disk e) ->
+    open_wal c e = (res, e') ->
+    exists bd', erun c bd e bd' e' /\
+                match res with OOk w => wlink c w bd' (e_disk e') | OErr _ => True end.
+Proof. exact open_wal_link. Qed.
+Print Assumptions Link_open_wal.
+
+(* the byte-level RecoverTail behind seg_recover *)
+Theorem Link_seg_recover :
+  forall c si bd e f,
+    drep c bd (e_disk e) -> si_codec si = c_codec c ->
+    lookup (name_of si) (dk_files (e_disk e)) = Some f -> df_pend f = None ->
+    seg_recover si e = Some (Some (recw si f)) /\
+    exists bs bf,
+      tail_link c (recw si f) si bs bd (e_disk e) /\
+      blookup (name_of si) bd = Some bf /\
+      recover_state si (bf_data bf) = Some (wst si (cstate si bs)) /\
+      bf_data (bscrub_file si (bkept (bf_data bf))) = bf_data bf.
+Proof. exact seg_recover_link. Qed.
+Print Assumptions Link_seg_recover.
+
+(* the guards, from the invariants of crash_refinement *)
+Theorem Link_LInv_small : forall c nb w d, cfg_ok c -> LInv c nb w d -> small_tail (st_tail w).
+Proof. exact LInv_small. Qed.
+Print Assumptions Link_LInv_small.
+Theorem Link_DIs_meta_small : forall c nb d, DIs c nb d -> nb < two64 -> meta_small d.
+Proof. exact DIs_meta_small. Qed.
+Print Assumptions Link_DIs_meta_small.
+
+(* every call of the model *)
+Theorem Link_step :
+  forall c nb s o bd r s',
+    cfg_ok c -> sop_ok o ->
+    wlink c (ss_wal s) bd (e_disk (ss_env s)) -> e_fault (ss_env s) = None ->
+    LInv c nb (ss_wal s) (e_disk (ss_env s)) -> nb < two64 ->
+    step_model c s o = (r, s') -> (o = OReopen -> r = ROk) ->
+    op_link c bd (ss_env s) (ss_wal s') (ss_env s').
+Proof. exact step_link. Qed.
+Print Assumptions Link_step.
+
+(* GetLog down to bytes (partial: see Link_get_log_stmt below) *)
+Theorem Link_get_log_partial :
+  forall c w bd e idx l e',
+    wlink c w bd (e_disk e) -> seg_meta_ok w (e_disk e) ->
+    get_log w idx e = (RLog l, e') ->
+    exists p, bread c w bd (e_disk e) idx p /\ decode_log p = Some l.
+Proof. exact get_log_link. Qed.
+Print Assumptions Link_get_log_partial.
+
+(* the full statement about GetLog, without the hypothesis on the recorded index
+   start (no WAL-level invariant speaks about si_index_start: L2's seg_read does
+   not use it).  NOT proved; Link_get_log_partial is the partial result, and the missing
+   ingredient is exactly: for every listed non-tail segment s with file f,
+   si_index_start s = cur_seal f <> 0 in every state of an accepted history
+   (the other half of seg_meta_ok, si_base s <= si_min s, is LInv_base_le_min). *)
+Definition Link_get_log_stmt : Prop :=
+  forall c nb w bd e idx l e',
+    cfg_ok c -> LInv c nb w (e_disk e) -> wlink c w bd (e_disk e) ->
+    get_log w idx e = (RLog l, e') ->
+    exists p, bread c w bd (e_disk e) idx p /\ decode_log p = Some l.
+
+(* HISTORIES (Wal/Hist.v: calls, power loss after any j actions of a call or of
+   Open with any crash choice, reopen; the histories crash_refinement is about).
+   (1) every accepted history has a byte-level run: the byte disk is linked at
+       the end, hence (prefixes are histories) after every step *)
+Theorem Link_history :
+  forall c steps, cfg_ok c -> Forall hstep_wf steps -> short_enough steps ->
+    exists bd, HL c (hist_run c hist_init steps) bd.
+Proof. exact hist_link. Qed.
+Print Assumptions Link_history.
+
+Theorem Link_history_step :
+  forall c nb h st bd,
+    cfg_ok c -> hstep_wf st -> nb + 2 < two64 -> GI c nb h -> HL c h bd ->
+    exists bd', HL c (hstep_run c h st) bd'.
+Proof. exact hist_step_link. Qed.
+Print Assumptions Link_history_step.
+
+Theorem Link_history_GI :
+  forall c steps, cfg_ok c -> Forall hstep_wf steps -> short_enough steps ->
+    GI c (2 * N.of_nat (length steps)) (hist_run c hist_init steps).
+Proof. exact hist_GI. Qed.
+Print Assumptions Link_history_GI.
+
+(* a call / an Open from a linked state of an accepted history: the byte disk
+   follows in lock step (op_link = exists bd', erun ... /\ wlink ...) *)
+Theorem Link_history_call :
+  forall c nb h s o bd,
+    cfg_ok c -> sop_ok o -> nb + 2 < two64 -> GI c nb h -> hs_mode h = Up s -> HL c h bd ->
+    exists r s', step_model c s o = (r, s') /\
+                 op_link c bd (ss_env s) (ss_wal s') (ss_env s') /\
+                 NoDup (map fst (dk_files (e_disk (ss_env s)))).
+Proof. exact call_link. Qed.
+Print Assumptions Link_history_call.
+
+Theorem Link_history_open :
+  forall c nb h d bd,
+    cfg_ok c -> nb + 2 < two64 -> GI c nb h -> hs_mode h = Down d -> HL c h bd ->
+    exists w e, open_wal c (env_of d) = (OOk w, e) /\ op_link c bd (env_of d) w e.
+Proof. exact open_link. Qed.
+Print Assumptions Link_history_open.
+
+(* which file can have a write in flight: a listed segment whose file has a
+   pending batch is the unsealed tail, the file Open hands to RecoverTail *)
+Theorem Link_pending_only_tail :
+  forall c nb d ps n f s,
+    DIs c nb d -> dk_meta d = Some ps -> lookup n (dk_files d) = Some f -> df_pend f <> None ->
+    In s (ps_segs ps) -> name_of s = n -> si_sealed s = false /\ tail_info (ps_segs ps) = Some s.
+Proof. exact pending_only_tail. Qed.
+Print Assumptions Link_pending_only_tail.
+
+(* (2) every byte-level crash outcome is covered: after j actions of a call (of
+   Open) the byte disk reached is related, and WHATEVER the byte-level adversary
+   leaves, some crash choice cc continues the history, linked after RecoverTail;
+   the invariant GI of crash_refinement holds of the continued history, so the
+   next Open (Link_history_open) and everything after it are covered again *)
+Theorem Link_crash_in_call_covered :
+  forall c nb h s o j bd,
+    cfg_ok c -> sop_ok o -> nb + 2 < two64 -> GI c nb h -> hs_mode h = Up s -> HL c h bd ->
+    let s' := snd (step_model c s o) in
+    let acts := new_acts (ss_env s) (ss_env s') in
+    let dj := fold_left apply_act (firstn j acts) (e_disk (ss_env s)) in
+    exists bdj, lrun c bd (e_disk (ss_env s)) (firstn j acts) bdj dj /\
+      forall out, bcrash bdj out ->
+        exists cc, HL c (hstep_run c h (HCrashIn o j cc)) (bscrub c out) /\
+                   hs_mode (hstep_run c h (HCrashIn o j cc)) = Down (crash_disk cc dj) /\
+                   GI c (nb + 2) (hstep_run c h (HCrashIn o j cc)).
+Proof. exact crash_in_call_covered. Qed.
+Print Assumptions Link_crash_in_call_covered.
+
+Theorem Link_crash_in_open_covered :
+  forall c nb h d j bd,
+    cfg_ok c -> nb + 2 < two64 -> GI c nb h -> hs_mode h = Down d -> HL c h bd ->
+    let acts := rev_append (e_acts (snd (open_wal c (env_of d)))) [] in
+    let dj := fold_left apply_act (firstn j acts) d in
+    exists bdj, lrun c bd d (firstn j acts) bdj dj /\
+      forall out, bcrash bdj out ->
+        exists cc, HL c (hstep_run c h (HCrashInOpen j cc)) (bscrub c out) /\
+                   hs_mode (hstep_run c h (HCrashInOpen j cc)) = Down (crash_disk cc dj) /\
+                   GI c (nb + 2) (hstep_run c h (HCrashInOpen j cc)).
+Proof. exact crash_in_open_covered. Qed.
+Print Assumptions Link_crash_in_open_covered.
+
+(* ================================================================== *)
+(* Non-vacuity of sections 5 and 6: a concrete directory with two files  *)
+Definition lk_c : cfg := {| c_seg_size := 256; c_codec := 1 |}.
+Definition lk_n2 : fname := (3, 8).
+Definition lk_w1 : wstate := snd (fst (append (init_empty lk_info) (ents lk_ls) FNone)).
+Definition lk_pb : pbatch := pb_of lk_ls lk_w1.
+(* L2: two files created, the batch of two records written to the first, no fsync yet *)
+Definition lk_d0 : disk := apply_act (apply_act empty_disk (ACreate lk_n 256)) (ACreate lk_n2 256).
+Definition lk_d1 : disk := apply_act lk_d0 (AWrite lk_n 0 152 lk_pb).
+(* bytes: the same with the actual bytes *)
+Definition lk_bd0 : bdisk := bapply (bapply [] (BCreate lk_n 256)) (BCreate lk_n2 256).
+Definition lk_bd1 : bdisk := bapply lk_bd0 (BWrite lk_n 0 lk_new).
+
+Example Link_ex_cfg : cfg_ok lk_c /\ finfo lk_c lk_n = lk_info /\ hdr_wf (finfo lk_c lk_n) /\ hdr_wf (finfo lk_c lk_n2).
+Proof.
+  split; [repeat split; try (left; reflexivity); reflexivity|]. split; [reflexivity|].
+  split; repeat split; reflexivity.
+Qed.
+
+Example Link_ex_logs_ok : logs_ok lk_ls.
+Proof.
+  repeat constructor; try (vm_compute; intros; discriminate); try (vm_compute; reflexivity).
+Qed.
+
+(* the two-file directory with a batch in flight is drep-related; the byte-level
+   file: the bytes in the page cache, 256 zero bytes durable, one unsynced write,
+   directory entry not durable *)
+Example Link_ex_disk :
+  drep lk_c lk_bd0 lk_d0 /\ drep lk_c lk_bd1 lk_d1 /\
+  lk_bd1 = [(lk_n, {| bf_data := lk_new ++ zeros 104; bf_sync := zeros 256; bf_pend := [(0, lk_new)]; bf_dir := false |});
+            (lk_n2, bcreated 256)] /\
+  dk_files lk_d1 = [(lk_n, written (created 256) lk_pb); (lk_n2, created 256)] /\
+  frep_at lk_info [] (Some (map enc lk_ls, false))
+          {| bf_data := lk_new ++ zeros 104; bf_sync := zeros 256; bf_pend := [(0, lk_new)]; bf_dir := false |}
+          (written (created 256) lk_pb).
+Proof.
+  assert (D0 : drep lk_c lk_bd0 lk_d0).
+  { destruct Link_ex_cfg as (_ & _ & H1 & H2).
+    apply bcreate_drep; [apply bcreate_drep; [constructor|exact H1]|exact H2]. }
+  destruct (bwrite_drep lk_c lk_bd0 lk_d0 lk_info lk_n [] (bcreated 256) (created 256)
+              (OpAppend (ents lk_ls)) lk_w1 (snd (append (init_empty lk_info) (ents lk_ls) FNone))
+              (map enc lk_ls, sealed lk_w1) lk_ls) as (_ & _ & D1 & _ & R1 & _).
+  - exact D0.
+  - reflexivity.
+  - repeat split; reflexivity.
+  - vm_compute. reflexivity.
+  - vm_compute. reflexivity.
+  - apply frep_create.
+  - vm_compute. reflexivity.
+  - reflexivity.
+  - exact Link_ex_logs_ok.
+  - vm_compute. reflexivity.
+  - assert (E1 : batch_write lk_info (cstate lk_info []) (map enc lk_ls, sealed lk_w1) = lk_new) by (vm_compute; reflexivity).
+    assert (E2 : len (image lk_info []) = 0) by reflexivity.
+    assert (E3 : len lk_new = 152) by (vm_compute; reflexivity).
+    assert (E4 : sealed lk_w1 = false) by (vm_compute; reflexivity).
+    rewrite E1, E2, E3 in D1. rewrite E1, E2, E4 in R1.
+    split; [exact D0|]. split; [exact D1|]. split; [vm_compute; reflexivity|]. split; [vm_compute; reflexivity|].
+    replace (lk_new ++ zeros 104) with (bf_data (bwrite_file (bcreated 256) 0 lk_new)) by (vm_compute; reflexivity).
+    exact R1.
+Qed.
+
+(* a concrete power loss: the second file (entry not durable) disappears; of the
+   batch in flight chunk 3 of 19 does not reach the disk.  RecoverTail zeroes the
+   torn bytes; L2's crash choice "keep the first file, drop its batch" gives the
+   related disk. *)
+Definition lk_out : bdisk := [(lk_n, bkept (lk_T ++ zeros 104))].
+Definition lk_cc : crash_choice := {| cc_keep_file := [lk_n]; cc_keep_batch := [] |}.
+
+Example Link_ex_disk_crash :
+  bcrash lk_bd1 lk_out /\
+  bscrub lk_c lk_out = [(lk_n, bkept (zeros 256))] /\
+  dk_files (crash_disk lk_cc lk_d1) =
+    [(lk_n, {| df_ents := []; df_end := 0; df_seal := 0; df_pend := None; df_dir := true; df_size := 256 |})] /\
+  drep lk_c (bscrub lk_c lk_out) (crash_disk lk_cc lk_d1).
+Proof.
+  destruct Link_ex_torn as (HT & Hnc & _). destruct Link_ex_disk as (_ & _ & Ebd & _).
+  split; [|split; [vm_compute; reflexivity|split; [vm_compute; reflexivity|]]].
+  - rewrite Ebd. apply (bcr_cons _ [(lk_n, bkept (lk_T ++ zeros 104))] _ []).
+    + apply bcf_keep. cbn [bf_sync bf_pend].
+      apply (ta_cons _ 0 lk_new lk_T).
+      * replace (region (zeros 256) (N.to_nat 0) (length lk_new)) with (zeros (length lk_new)) by (vm_compute; reflexivity).
+        apply torn_torn_over. exact HT.
+      * exact Hnc.
+      * replace (lk_T ++ zeros 104) with (overwrite (zeros 256) (N.to_nat 0) lk_T) by (vm_compute; reflexivity).
+        constructor.
+    + apply (bcr_cons _ [] _ []); [apply bcf_drop; reflexivity|constructor].
+  - replace (bscrub lk_c lk_out) with [(lk_n, bkept (zeros 256))] by (vm_compute; reflexivity).
+    unfold drep.
+    replace (dk_files (crash_disk lk_cc lk_d1)) with
+      [(lk_n, {| df_ents := []; df_end := 0; df_seal := 0; df_pend := None; df_dir := true; df_size := 256 |})]
+      by (vm_compute; reflexivity).
+    constructor; [|constructor]. cbn [fst snd]. split; [reflexivity|].
+    split; [apply Link_ex_cfg|]. exists [], None.
+    constructor; cbn [opt_batch app bkept bf_sync bf_pend bf_dir df_dir cur_ents df_pend df_ents].
+    + constructor; reflexivity.
+    + constructor.
+    + reflexivity.
+    + exists 256%nat. reflexivity.
+    + reflexivity.
+    + reflexivity.
+    + reflexivity.
+Qed.
+
+(* the branch of apply_act that extends a pending batch (a second write right
+   behind a batch that was never synced, without adopt_disk in between): L2's
+   merged batch survives a power loss whole or not at all (3 or 0 records), the
+   bytes can also keep the first batch only (2 records).  The state is not
+   reachable in the histories of the WAL-level theorems (every restart applies
+   adopt_disk first; crash histories have no failed fsync), so this is a limit
+   of that branch, not a defect of the theorems. *)
+Definition lk_x2 := append lk_w1 (ents [lk_log 3]) FNone.
+Definition lk_new2 : bytes := match lk_x2 with (_, _, [WWrite _ b; _]) => b | _ => [] end.
+Definition lk_pb2 : pbatch := pb_of [lk_log 3] (snd (fst lk_x2)).
+Definition lk_f2 : dfile := written (created 256) (merged lk_pb lk_pb2).
+
+Example Link_ex_merged_crash :
+  lookup lk_n (dk_files (apply_act lk_d1 (AWrite lk_n 152 (len lk_new2) lk_pb2))) = Some lk_f2 /\
+  map (fun keep => llen (df_ents (crashed keep lk_f2))) [true; false] = [3; 0] /\
+  torn_apply (zeros 256) [(0, lk_new); (152, lk_new2)] (lk_new ++ zeros 104) /\
+  recover_state lk_info (lk_new ++ zeros 104) = Some lk_w1 /\ len (w_offsets lk_w1) = 2.
+Proof.
+  split; [vm_compute; reflexivity|]. split; [vm_compute; reflexivity|].
+  split; [|split; vm_compute; reflexivity].
+  apply (ta_cons _ 0 lk_new lk_new).
+  - replace (region (zeros 256) (N.to_nat 0) (length lk_new)) with (zeros (length lk_new)) by (vm_compute; reflexivity).
+    apply torn_torn_over. apply (torn_refl 19). vm_compute. reflexivity.
+  - left. reflexivity.
+  - apply (ta_cons _ 152 lk_new2 (zeros (length lk_new2))).
+    + replace (region (overwrite (zeros 256) (N.to_nat 0) lk_new) (N.to_nat 152) (length lk_new2))
+        with (zeros (length lk_new2)) by (vm_compute; reflexivity).
+      apply torn_torn_over. apply (torn_all_zero 8). vm_compute. reflexivity.
+    + apply no_torn_collisionb_spec. vm_compute. reflexivity.
+    + replace (lk_new ++ zeros 104)
+        with (overwrite (overwrite (zeros 256) (N.to_nat 0) lk_new) (N.to_nat 152) (zeros (length lk_new2)))
+        by (vm_compute; reflexivity).
+      constructor.
+Qed.
